@@ -536,7 +536,9 @@ class ContiguousDataReader(BaseDataReader):
                 # In last chunk with reduced chunk size
                 current_position += obj.data_type.size * number_values
             else:
-                raise Exception("Cannot skip over channel with unsized type in a truncated segment")
+                # Truncated final chunk containing an unsized type: no values are read
+                # from this chunk for any channel (see _compute_final_chunk_lengths)
+                break
 
         return channel_data
 
